@@ -71,6 +71,32 @@ def lean_build(targets=("FP", "fpdriver")):
     return _built[key]
 
 
+def fp_closure(mods):
+    """the modules of this project that `mods` import, transitively (read off the `import` lines)"""
+    seen, todo = [], list(mods)
+    while todo:
+        m = todo.pop()
+        if m in seen or not m.startswith("FP"):
+            continue
+        f = LEAN / (m.replace(".", "/") + ".lean")
+        if not f.exists():
+            continue
+        seen.append(m)
+        for line in f.read_text().split("\n"):
+            mm = re.match(r"\s*import\s+(FP[\w.]*)", line)
+            if mm:
+                todo.append(mm.group(1))
+    return sorted(seen)
+
+
+def leanchecker(mods):
+    """independent replay of the compiled declarations of `mods` (and what they import inside this project) through the
+    kernel by the toolchain's `leanchecker`; returns (ok, output tail, number of modules)"""
+    cl = fp_closure(mods)
+    rc, out = run(["lake", "env", "leanchecker", *cl], cwd=LEAN, timeout=3000)
+    return rc == 0, out[-2000:], len(cl)
+
+
 def lean_sources():
     return sorted(p for p in (LEAN / "FP").rglob("*.lean")) + [LEAN / "Driver.lean"]
 
